@@ -306,7 +306,7 @@ func judgeC03(c *Ctx, ref *parseRef, p *DPResult) (string, bool, interface{}) {
 // ---------------- C05 ----------------
 
 func runC05(c *Ctx) error {
-	nG := c.Pick(25, 300)
+	nG := c.Pick(45, 300)
 	want := c.Pick(600, 3000)
 	c.Rule = "grammars with shift/reduce and/or reduce/reduce conflicts (no accept conflicts) generated with -a; every reduction is recorded; verdict and reduction sequence compared with M-LR1 resolved by 'shift first, else earliest production'; non-trivial = the reference run consulted at least one entry that had competing actions; distinct by (grammar, tokens)"
 	c.Assumptions = []string{"M-LR1 builds the canonical LR(1) automaton; state numbering is not compared"}
